@@ -402,6 +402,7 @@ func runCheck(opt checkOpts) int {
 	}
 	var reports []reported
 	var unconfirmed []string
+	hangConfirmed := false
 	violations := 0
 	sigs := make([]string, 0, len(agg.findings))
 	for s := range agg.findings {
@@ -439,9 +440,13 @@ func runCheck(opt checkOpts) int {
 			}
 			os.Setenv("VERIF_WATCHDOG_S", fmt.Sprint(3*wd))
 			confirmed := 0
-			for k := 0; k < 2; k++ {
+			if hangConfirmed {
+				confirmed = 1 // one reproduced hang settles the verdict; the others are listed as observed
+			}
+			for k := 0; k < 2 && confirmed == 0; k++ {
 				if execPlanSignatures(b, opt.ID, f.Plan, inf)[sig] {
 					confirmed++
+					hangConfirmed = true
 				}
 			}
 			os.Unsetenv("VERIF_WATCHDOG_S")
